@@ -41,6 +41,8 @@ SCHEDS = [
     {"policy": "pct", "d": 2, "horizon": 3000, "preempt": "line"},
     {"policy": "rr", "q": 3, "preempt": "line"},
     {"policy": "random", "p": 0.2, "preempt": "sync"},
+    {"policy": "random", "p": 0.5, "preempt": "sync"},
+    {"policy": "pct", "d": 2, "horizon": 150, "preempt": "sync"},
 ]
 # (11, 255, 499: the length byte of the last block equals NAK = 0x15)
 LENS = [0, 1, 10, 11, 243, 244, 245, 255, 488, 489, 499, 600, 732, 1000]
@@ -64,6 +66,10 @@ def gen_plan(rng, tier, index):
             "chunk_gap": rng.choice([0, 0.0002, 0.004]), "a_is_host": rng.random() < 0.5, "device": rng.choice([0, 7, 0x7FFF])}
     sched = dict(rng.choice(SCHEDS))
     sched["seed"] = rng.getrandbits(48)
+    if rng.random() < 0.4:
+        # fault: a thread is descheduled for a moment just before one of its synchronisation calls
+        sched["sync_stall"] = {"n": rng.choice([1, 2, 4, 8]), "horizon": rng.choice([50, 200, 800, 3000]),
+                               "durs": [0.002, 0.03]}
     plan["sched"] = sched
     return plan
 
